@@ -890,6 +890,7 @@ def adapt_typehints(
         elif not isinstance(val, list):
             raise_unexpected_value(f"Expected a {typehint_origin}", val)
         if subtypehints is not None:
+            val = list(val)
             for n, v in enumerate(val):
                 if isinstance(prev_val, list) and len(prev_val) == len(val):
                     adapt_kwargs_n = {**deepcopy(adapt_kwargs), "prev_val": prev_val[n]}
@@ -913,6 +914,8 @@ def adapt_typehints(
             if subtypehints[0] == int:
                 cast = str if serialize else int
                 val = {cast(k): v for k, v in val.items()}
+            else:
+                val = dict(val)
             for k, v in val.items():
                 if "linked_targets" in adapt_kwargs["sub_add_kwargs"]:
                     kwargs = deepcopy(adapt_kwargs)
@@ -962,6 +965,7 @@ def adapt_typehints(
             extra_keys = val.keys() - typehint.__annotations__.keys()
             if extra_keys:
                 raise_unexpected_value(f"Unexpected keys: {extra_keys}", val)
+            val = dict(val)
             for k, v in val.items():
                 val[k] = adapt_typehints(v, typehint.__annotations__[k], **adapt_kwargs)
         if typehint_origin is MappingProxyType and not serialize:
